@@ -1478,6 +1478,7 @@ int32_t matrixSslLoadOCSPResponse(sslKeys_t *keys,
     const unsigned char *OCSPResponseBuf, psSize_t OCSPResponseBufLen)
 {
     psPool_t *pool;
+    unsigned char *buf;
 
     if (keys == NULL || OCSPResponseBuf == NULL || OCSPResponseBufLen == 0)
     {
@@ -1486,20 +1487,17 @@ int32_t matrixSslLoadOCSPResponse(sslKeys_t *keys,
     pool = keys->pool;
     PS_POOL_USED(pool);
 
-    /* Overwrite/Update any response being set */
-    if (keys->OCSPResponseBuf != NULL)
-    {
-        psFree(keys->OCSPResponseBuf, pool);
-        keys->OCSPResponseBufLen = 0;
-    }
-
-    keys->OCSPResponseBufLen = OCSPResponseBufLen;
-    if ((keys->OCSPResponseBuf = psMalloc(pool, OCSPResponseBufLen)) == NULL)
+    if ((buf = psMalloc(pool, OCSPResponseBufLen)) == NULL)
     {
         return PS_MEM_FAIL;
     }
+    Memcpy(buf, OCSPResponseBuf, OCSPResponseBufLen);
 
-    Memcpy(keys->OCSPResponseBuf, OCSPResponseBuf, OCSPResponseBufLen);
+    /* Overwrite/Update any response being set: sessions of other threads
+       may be using the keys, so the complete new response replaces the old
+       one under the lock they copy it under.  We get the old one back. */
+    matrixSwapOCSPResponse(keys, &buf, &OCSPResponseBufLen);
+    psFree(buf, pool);
     return PS_SUCCESS;
 }
 #endif /* USE_OCSP_RESPONSE && USE_SERVER_SIDE_SSL */
